@@ -292,10 +292,13 @@ def eval (env : EvalEnv) (locals : ECtx) : Expr → Except String (Value × ECtx
             match expectUsize hv with
             | .error m => .error m
             | .ok h =>
-              if h + 1 ≥ USIZE_MAX1 then .error "panic: attempt to add with overflow" else
               match expectUsize lv with
               | .error m => .error m
-              | .ok l => (checkedSlice x (h + 1) l).map (fun b => (.int b, locals))
+              | .ok l =>
+                -- `x[hi:lo]` names the bits hi down to lo; hi + 1 has to be a `usize`
+                if h < l then .error "invalid slice range"
+                else if h + 1 ≥ USIZE_MAX1 then .error outOfRange
+                else (checkedSlice x (h + 1) l).map (fun b => (.int b, locals))
   | .sliceShort size inner =>
     match eval env locals inner with
     | .error m => .error m
